@@ -33,6 +33,7 @@ YearOK(e) ==
   ELSE /\ WeekdayOneSided(e.name, e.y) \subseteq SeqToSet(e.hol)     \* one-sided: documented holidays are holidays
        /\ e.weekend_bus_count = 0
 ResolveOK(e) == /\ e.o = "ok"
+                /\ ("py_o" \in DOMAIN e => e.py_o = "ok" /\ e.py_diff_n = 0)      \* Python's get_named_calendar hands out the same calendar
                 \* (the same calendar through its name: same business days, every day settles, and the same answer to
                 \*  "is this day a holiday" on every day of 1970-2200 - through the named calendar and the generic container)
                 /\ (e.via = "NamedCal" => e.bus = e.ref /\ e.stl_all /\ e.hol_diff_n = 0)
